@@ -3,6 +3,8 @@ open GlueVerif.C14
 #print axioms binary_compute_elementwise
 #print axioms expr_eval
 #print axioms link_compute_elementwise
+#print axioms getitem_elementwise
+#print axioms getitem_view_commutes
 #print axioms remove_closure
 #print axioms depClosure_iff_reach
 #print axioms remove_absent
